@@ -909,7 +909,7 @@ impl Tree {
                 (None, None) => None,
                 (Some(new_len), Some((_, old_len))) => old_len.map(|v| v + new_len),
                 (Some(new_len), None) => Some(new_len),
-                (None, Some((_, old_len))) => *old_len,
+                (None, Some(_)) => None,
             };
 
             partitions.insert(part, (node.depth, len));
